@@ -459,3 +459,46 @@ Proof.
   - rewrite IH. unfold fee_active, new_req, fee_of. cbn [r_active r_fee].
     destruct (c_super rc); lia.
 Qed.
+
+Lemma issue_all_get s c rc n i provs r q :
+  get r (reqs (issue_all s c rc n i provs)) = Some q ->
+  get r (reqs s) = Some q
+  \/ exists k p, nth_error provs k = Some p /\ r = (c, n, height s, i + Z.of_nat k)
+                 /\ q = new_req s rc p.
+Proof.
+  revert s i. induction provs as [|p t IH]; intros s i G; cbn [issue_all] in G; [now left|].
+  set (s1 := issue_one s c rc n i p) in *.
+  pose proof (issue_one_frame s c rc n i p) as F. fold s1 in F.
+  destruct F as (F1 & F2 & _ & _ & F5 & _ & _ & _ & _ & _ & _ & _ & _ & _ & _ & F16 & _).
+  destruct (IH s1 (i + 1) G) as [G1|(k & p' & Hn & -> & ->)].
+  - assert (R1 : reqs s1 = set (c, n, height s, i) (new_req s rc p) (reqs s)) by reflexivity.
+    rewrite R1, get_set in G1.
+    destruct (eqb_spec r (c, n, height s, i)) as [->|Hne]; [|now left].
+    right. exists 0%nat, p. injection G1 as <-. repeat split. f_equal. lia.
+  - right. exists (S k), p'. split; [exact Hn|]. rewrite F1.
+    rewrite (new_req_stable s s1) by assumption. split; [|reflexivity]. f_equal. lia.
+Qed.
+
+Lemma nth_error_len {A} (l : list A) k x : nth_error l k = Some x -> Z.of_nat k < len l.
+Proof.
+  intros H. unfold len. apply Nat2Z.inj_lt. apply nth_error_Some. congruence.
+Qed.
+
+Lemma sum_new_active s c rc n i provs c' :
+  sum_new (active_in c') s c rc n i provs = if eqb c c' then len provs else 0.
+Proof.
+  revert i. induction provs as [|p t IH]; intros i; cbn [sum_new]; [now destruct (eqb c c')|].
+  rewrite IH. unfold active_in, new_req. cbn [rid_ctx fst r_active].
+  unfold len. cbn [length]. rewrite Nat2Z.inj_succ.
+  destruct (eqb c c'); cbn [andb]; lia.
+Qed.
+
+Lemma In_filter_providers s rc provs p :
+  In p (map fst (filter_providers s rc provs)) ->
+  exists b, get (c_svc rc, p) (binds s) = Some b.
+Proof.
+  induction provs as [|a t IH]; cbn [filter_providers map]; [intros []|].
+  destruct (eligible s rc a) as [price|] eqn:E; [|exact IH].
+  cbn [map fst In]. intros [<-|Hin]; [|auto].
+  unfold eligible in E. destruct (get (c_svc rc, a) (binds s)) as [b|]; [eauto|discriminate].
+Qed.
